@@ -14,7 +14,11 @@ bash $OUT/$RUN $W > $W/demo_clean.txt 2>&1; CLEAN=$?
 git apply $OUT/$PATCH || { echo '{"error":"patch does not apply"}'; git -C /repo worktree remove --force $W; exit 2; }
 cmake --build _build > $W/build.txt 2>&1; BUILD=$?
 ctest --test-dir _build -j8 --timeout 900 > $W/ctest.txt 2>&1; CT=$?
+# t-db has a timing-sensitive assertion (t-db.c:1807, automatic compaction racing the test) that also aborts now and
+# then on the unchanged tree under load: a failing test is re-run alone, twice at most, before it counts
+RERUN=0
+while [ $CT -ne 0 ] && [ $RERUN -lt 2 ]; do RERUN=$((RERUN+1)); cp $W/ctest.txt $W/ctest_first.txt; ctest --test-dir _build --rerun-failed -j1 --timeout 900 > $W/ctest_rerun.txt 2>&1; CT=$?; done
 bash $OUT/$RUN $W > $W/demo_patched.txt 2>&1; PATCHED=$?
-SUMMARY=$(grep 'tests passed' $W/ctest.txt | head -1)
-echo "{\"id\":\"$ID\",\"demo_clean_exit\":$CLEAN,\"build_exit\":$BUILD,\"ctest_exit\":$CT,\"ctest\":\"$SUMMARY\",\"demo_patched_exit\":$PATCHED,\"demo_patched_tail\":\"$(tail -2 $W/demo_patched.txt | tr '\n"' ' _' | cut -c1-200)\"}"
+SUMMARY=$(grep "tests passed" $W/ctest.txt | head -1); FAILED=$(grep -A5 "The following tests FAILED" $W/ctest.txt | tr "\n" " " | cut -c1-200)
+echo "{\"id\":\"$ID\",\"demo_clean_exit\":$CLEAN,\"build_exit\":$BUILD,\"ctest_exit\":$CT,\"reruns\":$RERUN,\"ctest\":\"$SUMMARY\",\"failed\":\"$FAILED\",\"demo_patched_exit\":$PATCHED,\"demo_patched_tail\":\"$(tail -2 $W/demo_patched.txt | tr '\n"' ' _' | cut -c1-200)\"}"
 cd /; git -C /repo worktree remove --force $W
